@@ -500,3 +500,12 @@ ENTRIES += [
     V("C17-v-mc-terminal-order", "C17", (MC, "        return (x >= self.goal_position) & (v >= self.goal_velocity)", "        return (self.goal_velocity <= v) & (self.goal_position <= x)")),
     V("C17-v-cmc-wall-where", "C17", (CMC, "        v = v * ((x != self.min_position) | (v > 0.0))\n", "        v = jnp.where((x == self.min_position) & (v < 0.0), 0.0, v)\n")),
 ]
+
+ENTRIES += [
+    # ---------------------------------------------------------------- C17.6 (thorough tier)
+    M("C17-cartpole-theta-denominator", "C17", "C17.6", (CP, "            * (4.0 / 3.0 - self.pole_mass * (jnp.cos(theta) ** 2) / self.total_mass)", "            * (4.0 / 3.0 - self.pole_mass * jnp.cos(theta) / self.total_mass)"), tier="thorough", stale_ok=True),
+    M("C17-cartpole-force-sign", "C17", "C17.6", (CP, "        force = (action * 2 - 1) * self.force_mag", "        force = (1 - action * 2) * self.force_mag"), tier="thorough"),
+    M("C17-mc-gravity-sign", "C17", "C17.6", (MC, "        x_dd = u - self.gravity * jnp.cos(3.0 * x)", "        x_dd = u + self.gravity * jnp.cos(3.0 * x)"), tier="thorough"),
+    M("C17-cmc-hill-frequency", "C17", "C17.6", (CMC, "        x_dd = self.power * a - 0.0025 * jnp.cos(3.0 * x)", "        x_dd = self.power * a - 0.0025 * jnp.cos(2.0 * x)"), tier="thorough"),
+    M("C17-acrobot-nips", "C17", "C17.6", (ACR, "            + d2 / d1 * phi1\n            - self.link_mass_2\n            * self.link_length_1\n            * self.link_com_pos_2\n            * theta1_d**2\n            * jnp.sin(theta2)\n            - phi2", "            + d2 / d1 * phi1\n            - phi2"), tier="thorough", stale_ok=True),
+]
